@@ -3,7 +3,8 @@
    stay Coq datatypes.  No Extract Constant. *)
 From Coq Require Extraction.
 From Coq Require Import ExtrOcamlBasic.
-From CacheV Require Import Base SpecMap Client CacheModel CacheOfModel Ops Exec.
+From CacheV Require Import Base SpecMap Client CacheModel CacheOfModel Ops Exec TableModel TabExec.
 Extraction Language OCaml.
 Extraction "model.ml"
-  x_new x_newdefault x_step x_spec_next x_spec_okb fn_of vis_of z_push_digit z_digits z_is_neg z_small.
+  x_new x_newdefault x_step x_spec_next x_spec_okb fn_of vis_of z_push_digit z_digits z_is_neg z_small
+  x_tab_new x_tab_step x_compute_op x_loadorcompute_op x_tab_cur t_seed t_chains t_size.
